@@ -113,6 +113,7 @@ func init() {
 			"mechanism only: every guarded write of every request coroutine has its row count examined, and on the 0-row path the coroutine retries or answers without data from the earlier read (R6)",
 			"coroutine code is confined to the single-threaded kernel: no go statement, channel operation, package-level state or sync primitive; the only clock is c.Time() (R14/R8)",
 			"each command's guard re-validates what the decision read (R1/R2 on all statements) and each command literal is built from request/record/clock as specified (R9)",
+			"the objects shown in responses are the stored record patched with exactly what this request wrote (value, key, state and time of the written command — not of the request), so a response never shows a state that no sequential execution produces (R6 objects)",
 		},
 		[]string{"linearizability of histories (no history is explored)", "batch orders, fault sequences, kernel configurations", "correctness of the decisions themselves (C03, C04, C07, C09)"}).
 		rule("R6-cas", ruleCAS()).
@@ -120,6 +121,7 @@ func init() {
 		rule("R1R2-sql-spec", ruleSQLSpec(allKinds)).
 		rule("R9-command-provenance", ruleCmdProvenance(allCmdTypes...)).
 		rule("R6-response-shapes", ruleRespProvenance(allRespTypes...)).
+		rule("R6-object-provenance", ruleObjProvenance("Promise", "Promise.patch", "Task.patch", "Lock", "Schedule", "Callback")).
 		rule("M-DISPATCH", ruleDispatch)
 
 	regProp("C04",
@@ -305,6 +307,7 @@ func init() {
 		[]string{
 			"the status decision of create (fresh / existing / overdue × strict × key match), complete (not found / pending before or after the deadline / completed × strict × key match × state) and of read is extracted path by path from the control-flow graph and equals the table written from the statement (R7)",
 			"Key.Match is true only for two non-nil equal keys (R7, truth table)",
+			"the idempotency key and the strict flag the client sent reach the kernel: both front ends populate the same fields of every create / complete request (R13 siblings)",
 			"no repeat changes the promise: the only writes reachable from the existing-promise branches are the forced time-out group; the promise insert is ON CONFLICT DO NOTHING and the task insert of create-with-task is conditional on it, in both backends (R5/R1); a lost guarded write retries (R6)",
 		},
 		[]string{"retries racing with the original (C01/C02's discipline)", "histories and fault sequences"}).
@@ -317,7 +320,8 @@ func init() {
 		rule("R9-command-provenance", ruleCmdProvenance("UpdatePromiseCommand", "CreatePromiseCommand", "CreateTaskCommand", "ReadPromiseCommand")).
 		rule("R6-cas", ruleCAS("CreatePromise", "CreatePromiseAndTask", "CompletePromise")).
 		rule("R6-response-shapes", ruleRespProvenance("CreatePromiseResponse", "CreatePromiseAndTaskResponse", "CompletePromiseResponse")).
-		rule("R13-outcome-maps", ruleOutcomeMaps)
+		rule("R13-outcome-maps", ruleOutcomeMaps).
+		rule("R13-front-end-siblings", ruleFrontEndSiblings)
 }
 
 func init() {
